@@ -24,7 +24,8 @@ func (o *typedObject) valuesFromHash(c px.Context, hash px.OrderedMap) []px.Valu
 	if len(va) > 0 && typ.IsParameterized() {
 		params := make([]*HashEntry, 0)
 		typ.typeParameters(true).EachPair(func(k string, v interface{}) {
-			if pv, ok := hash.Get4(k); ok && px.IsInstance(v.(*typeParameter).typ, pv) {
+			// undef is what an absent parameter reads as: it does not bind the parameter
+			if pv, ok := hash.Get4(k); ok && !pv.Equals(undef, nil) && px.IsInstance(v.(*typeParameter).typ, pv) {
 				params = append(params, WrapHashEntry2(k, pv))
 			}
 		})
